@@ -25,6 +25,15 @@ structure Node where
 /-- ClassInheritanceMap: class node (frame, class) ↦ parents in insertion order -/
 abbrev Inh := Table (Str × Str) (List Node)
 
+/-- the implicit ancestor every class registers first: `ClassNode{Frame: "Builtin", Class: ""}` -/
+def objectNode : Node := { frame := "Builtin".toList, cls := [], isInclude := false, isExtend := false }
+
+/-- `base.AddParentNode`: an explicit ancestor (superclass, included / extended module, configured `extends`)
+goes ahead of the implicit Object ancestor, behind the explicit ancestors recorded before it. -/
+def addParent : List Node → Node → List Node
+  | [], p => [p]
+  | q :: rest, p => if q == objectNode then p :: q :: rest else q :: addParent rest p
+
 def parentsOf (g : Inh) (frame cls : Str) : List Node := (lookup g (frame, cls)).getD []
 
 abbrev Methods := Table FrameKey Unit      -- presence of a definition under a key
